@@ -9,6 +9,8 @@
   i.e. every log lies inside the step open for the emitting thread, steps are properly opened and closed,
   an empty step is elided (start and end together), and a step is open in the stream exactly when the
   thread's cursor says so — in particular no step stays open once the result has been ended.
+  The calls include both halves of the context manager `prepare_attachment` (`attachBegin` / `attachEnd`)
+  with any calls of any thread in between.
 -/
 import LccModel.Lemmas.SessionSteps
 
@@ -83,5 +85,90 @@ example : (match runOps St.init sampleOps with
     | .ok s => (accepts false (proj 1 s.fired), accepts false (proj 2 s.fired), accepts false (proj 10 s.fired),
                 (proj 1 s.fired).length, s.fired.length)
     | .error _ => (none, none, none, 0, 0)) = (some false, some false, some false, 3, 13) := by decide
+
+/-! ## `prepare_attachment` is a context manager: two phases with arbitrary api calls in between
+
+  `attachBegin` = entering the `with` block (name computed and counter bumped under the lock; nothing is
+  flushed or fired, the cursor is not read), `attachEnd` = leaving it (flush the held events, then fire the
+  attachment event with the location and the step the cursor has AT EXIT).  All theorems above quantify over
+  op sequences that contain these two ops; the atomic `.attach` is their composition. -/
+
+/-- Entering `with prepare_attachment(..)` fires nothing, flushes nothing and touches no cursor: it only
+    takes the next attachment number and remembers the prepared name for the entering thread. -/
+theorem attachBegin_fires_nothing (s : St) (t : Nat) (f d : String) (img : Bool) :
+    ∃ s', step s t (.attachBegin f d img) = .ok s' ∧ s'.fired = s.fired ∧ s'.cursors = s.cursors ∧
+      s'.saved = s.saved ∧ s'.failures = s.failures ∧ s'.now = s.now ∧ s'.attachCount = s.attachCount + 1 ∧
+      s'.prepared = { tid := t, name := attachName (s.attachCount + 1) f, description := d, asImage := img } :: s.prepared :=
+  ⟨_, rfl, rfl, rfl, rfl, rfl, rfl, rfl, rfl⟩
+
+/-- Leaving the block: the held events of the thread's cursor (in particular the held start of a step set
+    INSIDE the block) are flushed first, then the attachment event is fired with the cursor's location and
+    step as they are at exit time, under the name prepared by the newest still-open `attachBegin` of the
+    same thread. -/
+theorem attachEnd_reports_exit_time_step {s s' : St} {t : Nat} {c : Cursor} (hc : getCursor s t = some c)
+    (h : step s t .attachEnd = .ok s') :
+    ∃ p, s.prepared.find? (fun p => p.tid == t) = some p ∧
+      s'.fired = s.fired ++ c.pending ++ [.attachment c.loc c.step t p.name p.description p.asImage s.now] ∧
+      getCursor s' t = some { c with pending := [] } ∧
+      s'.prepared = s.prepared.eraseP (fun p => p.tid == t) := by
+  simp only [step] at h
+  cases hf : s.prepared.find? (fun p => p.tid == t) with
+  | none => rw [hf] at h; cases h
+  | some p =>
+    rw [hf] at h
+    have hc' : getCursor { s with prepared := s.prepared.eraseP (fun p => p.tid == t) } t = some c := hc
+    simp only [stepped, withCursor, hc'] at h
+    injection h with h; subst h
+    exact ⟨p, rfl, by simp [flush, fire, fireAll, tick, setCursor], by rw [getCursor_setCursor]; simp [flush], rfl⟩
+
+/-- The one-call forms (`save_attachment_content`, `save_attachment_file`, … = `with prepare_attachment(..)`
+    around a body that calls no session api) are `attachBegin` immediately followed by `attachEnd`. -/
+theorem attach_is_begin_then_end (s : St) (t : Nat) (f d : String) (img : Bool) :
+    step s t (.attach f d img) = (step s t (.attachBegin f d img)).bind (fun s1 => step s1 t .attachEnd) :=
+  step_attach_eq s t f d img
+
+def firedOf (ops : List (Nat × Op)) : Option (List Event) :=
+  match runOps St.init ops with | .ok s => some s.fired | .error _ => none
+
+/-! Non-vacuity / pinned behaviour.  A step set inside the block: the attachment is reported under the NEW
+    step "b", whose held start is flushed at exit; the step "a" that was current on entry is ended first
+    (and, when nothing was logged in it, elided together with its start). -/
+example : firedOf [(1, .startTest ["s", "t"] default), (1, .setStep "a"), (1, .log .info "x"),
+      (1, .attachBegin "f" "d" false), (1, .setStep "b"), (1, .attachEnd)] =
+    some [.testStart ["s", "t"] default 1, .stepStart (.test ["s", "t"]) "a" 1 2,
+          .log (.test ["s", "t"]) (some "a") 1 .info "x" 3, .stepEnd (.test ["s", "t"]) "a" 1 4,
+          .stepStart (.test ["s", "t"]) "b" 1 5,
+          .attachment (.test ["s", "t"]) (some "b") 1 "attachments/0001_f" "d" false 6] := by decide
+
+example : firedOf [(1, .startTest ["s", "t"] default), (1, .setStep "a"), (1, .attachBegin "f" "d" false),
+      (1, .setStep "b"), (1, .attachEnd)] =
+    some [.testStart ["s", "t"] default 1, .stepStart (.test ["s", "t"]) "b" 1 4,
+          .attachment (.test ["s", "t"]) (some "b") 1 "attachments/0001_f" "d" false 5] := by decide
+
+/-! Nested blocks of one thread are left innermost first; blocks of different threads are independent; the
+    number in the name is the one taken on ENTRY. -/
+example : firedOf [(1, .startTest ["s", "t"] default), (1, .setStep "a"), (1, .attachBegin "f" "outer" false),
+      (1, .attachBegin "g" "inner" true), (1, .attachEnd), (1, .attachEnd)] =
+    some [.testStart ["s", "t"] default 1, .stepStart (.test ["s", "t"]) "a" 1 2,
+          .attachment (.test ["s", "t"]) (some "a") 1 "attachments/0002_g" "inner" true 3,
+          .attachment (.test ["s", "t"]) (some "a") 1 "attachments/0001_f" "outer" false 4] := by decide
+
+example : firedOf [(1, .startTest ["s", "t"] default), (2, .startTest ["s", "u"] default), (1, .setStep "a"),
+      (2, .setStep "b"), (1, .attachBegin "f" "one" false), (2, .attachBegin "g" "two" false), (1, .attachEnd),
+      (2, .attachEnd)] =
+    some [.testStart ["s", "t"] default 1, .testStart ["s", "u"] default 2, .stepStart (.test ["s", "t"]) "a" 1 3,
+          .attachment (.test ["s", "t"]) (some "a") 1 "attachments/0001_f" "one" false 5,
+          .stepStart (.test ["s", "u"]) "b" 2 4,
+          .attachment (.test ["s", "u"]) (some "b") 2 "attachments/0002_g" "two" false 6] := by decide
+
+/-- leaving a block that was never entered is rejected (not expressible with a Python `with`) -/
+example : (match runOps St.init [(1, .startTest ["s", "t"] default), (1, .setStep "a"), (1, .attachEnd)] with
+    | .ok _ => none | .error e => some e) = some Err.noAttach := by decide
+
+/-- the steps of the two-phase sequences above are accepted by the bracket automaton -/
+example : (match runOps St.init [(1, .startTest ["s", "t"] default), (1, .setStep "a"), (1, .log .info "x"),
+      (1, .attachBegin "f" "d" false), (1, .setStep "b"), (1, .attachEnd), (1, .endTest ["s", "t"])] with
+    | .ok s => (accepts false (proj 1 s.fired), s.fired.length)
+    | .error _ => (none, 0)) = (some false, 8) := by decide
 
 end LccModel.C07
